@@ -386,6 +386,20 @@ def main(argv=None):
                 lines.append("CHECKER-ERROR engine conformance (%s) could not run: %r" % (mode, e))
                 if exit_code == 0:
                     exit_code = 3
+    # assumed contracts of standard-library functions (dev/libmodels.py): refuted on this interpreter => the proofs that use them say nothing here
+    libmodels = None
+    if not os.environ.get("PYVC_NO_CONFORMANCE"):
+        try:
+            pr = subprocess.run([VENV_PY, os.path.join(VERIF, "dev", "libmodels.py")], capture_output=True, text=True, timeout=300)
+            libmodels = json.loads((pr.stdout.strip().splitlines() or ["{}"])[-1])
+            if pr.returncode != 0 or libmodels.get("refuted"):
+                lines.append("CHECKER-ERROR an assumed standard-library contract is refuted on this interpreter: %s" % "; ".join(libmodels.get("refuted", []))[:600])
+                if exit_code == 0:
+                    exit_code = 3
+        except Exception as e:  # noqa
+            lines.append("CHECKER-ERROR library-model conformance could not run: %r" % (e,))
+            if exit_code == 0:
+                exit_code = 3
     n_known_obl = sum(len(rs) for _, rs in known_hit.values())
     ev = {
         "property_id": a.prop,
@@ -410,6 +424,7 @@ def main(argv=None):
             "known_findings_reported": sorted(known_hit),
             "seeded_selftest": selftest,
             "engine_conformance": conformance,
+            "assumed_library_contracts_checked": libmodels,
             "cross_solver_rechecks": sum(1 for _, _, run in runs for r in run.results if r.backend.startswith("z3+cvc5")),
             "undecided_clauses": spec.get("undecided_clauses", []),
             "dropped_by_reading": spec.get("dropped", "see DESIGN.md 3.3 (exception/log message arguments not evaluated; float rounding; async exceptions; static attribute lookup)"),
